@@ -10,9 +10,10 @@ CONSTANTS
   Protos = {TRUE, FALSE}
   Faults <- SomeFaults
   Spurious = FALSE
+  AllowDrop = FALSE
 INIT Init
 NEXT Next
 VIEW View
 INVARIANTS TypeOK C02state HandleUnique C15 NoOrphan PureHasOwner MarkerHasOwner
-PROPERTIES C02step C06step C05step C05pop C14a C04iv C04kept C04issue C04dial NoSpuriousError
+PROPERTIES C02step C06step C05step C05pop C14a C04iv C04ivIdle C04kept C04issue C04dial NoSpuriousError
 CHECK_DEADLOCK FALSE
